@@ -202,6 +202,9 @@ func runProg(c *router.Context, prog []opT, res *runRes, hk hook, nw []int) {
 			w.WriteHeader(op.Code)
 		case "B":
 			n, err := w.Write(op.Data)
+			if nw != nil && nw[i] == 0 {
+				break // refused by a writer in front of everything (refuseWriter): not an operation of the model
+			}
 			res.Outs = append(res.Outs, outT{1, int64(n), errClass(err)})
 		case "P":
 			n, err := fmt.Fprintf(w, "%s", op.Data)
@@ -799,6 +802,26 @@ func (w *recorderWriter) Flush() {
 	}
 }
 
+// refuseWriter refuses exactly its n-th Write (a transient fault of a writer in front of the compression
+// middleware); everything else goes through.
+type refuseWriter struct {
+	http.ResponseWriter
+	n int
+}
+
+func (w *refuseWriter) Write(b []byte) (int, error) {
+	w.n--
+	if w.n == 0 {
+		return 0, errors.New("write refused")
+	}
+	return w.ResponseWriter.Write(b)
+}
+func (w *refuseWriter) Flush() {
+	if f, ok := w.ResponseWriter.(http.Flusher); ok {
+		f.Flush()
+	}
+}
+
 // wrapMW is another middleware that wraps the response writer.
 func wrapMW(kind string) router.HandlerFunc {
 	return func(c *router.Context) {
@@ -807,10 +830,15 @@ func wrapMW(kind string) router.HandlerFunc {
 			c.Response = bareWriter{orig}
 		} else if strings.HasSuffix(kind, "recorder") {
 			c.Response = &recorderWriter{ResponseWriter: orig}
+		} else if i := strings.Index(kind, "refuse-"); i >= 0 {
+			n, _ := strconv.Atoi(kind[i+7:])
+			c.Response = &refuseWriter{ResponseWriter: orig, n: n}
 		} else {
 			c.Response = flushWriter{orig}
 		}
-		defer func() { c.Response = orig }()
+		if !strings.Contains(kind, "sticky") { // a sticky wrapper is never taken off again (as accesslog does)
+			defer func() { c.Response = orig }()
+		}
 		c.Next()
 	}
 }
